@@ -44,9 +44,19 @@ def is_arg(e, name):
     return e.k == "arg" and e.x["name"] == name
 
 
+# the same operation under two spellings: `cmp::max(a, b)` and `a.max(b)` (Ord::max), likewise min
+_SPELLINGS = {"cmp::max": ("cmp::max", "Ord::max"), "cmp::min": ("cmp::min", "Ord::min")}
+
+
 def is_call(e, *suffixes):
     e = e.strip() if e.k in ("ref", "deref") else e
-    return e.k == "call" and any(e.x["path"].endswith(s) for s in suffixes)
+    if e.k != "call":
+        return False
+    p = e.x["path"]
+    for s in suffixes:
+        if any(p.endswith(x) for x in _SPELLINGS.get(s, (s,))):
+            return True
+    return False
 
 
 def strip_casts(e):
